@@ -234,7 +234,9 @@ def pg (fn : String) (a : List String) : Option String := do
     if obs == "skip" then some "unspec" else
     if obs == "ok" then some (Spec.C07.holdsHeaderPos k none).toString else
     match obs.splitOn " " with
-    | ["err", c] => some (Spec.C07.holdsHeaderPos k (some (← c.toNat?))).toString
+    | ["err", c] => (match c.toNat? with
+        | some n => some (Spec.C07.holdsHeaderPos k (some n)).toString
+        | none => some "FAILS")      -- name cell and type cell of the report are not those of one column
     | _ => some "FAILS"
   | "o.pg.errpos", [_, _, _, _, _, k, obs] =>
     let k ← k.toNat?
